@@ -113,7 +113,13 @@ def validate(ck, execs, label):
 def run_for(ck, prop="C17"):
     quick = ck.tier == "quick"
     exe = build()
-    k = extract(exe)
+    try:
+        k = extract(exe)
+    except vlib.Infra as ex:
+        # the code no longer performs the accesses this model is cut along (restructured, not necessarily wrong): the model cannot
+        # be instantiated, which is reported as drift - the system-level scenarios still decide the property
+        ck.drifted(f"registry lock: constant extraction failed: {ex}")
+        return
     ck.extra["spinlock_memory_orders_from_code"] = k
     # (threads, rounds, history bound, export+replay every transition?) - the largest one is model-checked only
     configs = [(2, 2, 9, True)] if quick else [(2, 2, 10, True), (3, 1, 8, True), (2, 3, 13, True), (3, 2, 14, False)]
